@@ -115,3 +115,14 @@ Theorem c07_cursor_is_the_yielding_labels : forall e progs sched,
   s_cur (c_sh (exec e (init progs) sched)) = n_yield (c_labels (exec e (init progs) sched)).
 Proof. exact cursor_is_the_yielding_labels. Qed.
 Print Assumptions c07_cursor_is_the_yielding_labels.
+
+(** the label stream of every run is a sequentially consistent history of the three atomics (position /
+    reserved counter, yielded counter, completed flag): [replay] executes it from the oldest label on against a
+    memory that starts at (0, 0, false) and answers [None] at the first load that does not return the latest
+    write to its site or fetch_add that does not report the value it found; it ends in the shared state of
+    the model.  This is the exact content of "happens-before is computed over SC interleavings": the
+    correspondence check compares this stream, values included, with the one the instrumented crate records *)
+Theorem c07_label_stream_is_sequentially_consistent : forall e progs sched,
+  replay (c_labels (exec e (init progs) sched)) = Some (mem_of (c_sh (exec e (init progs) sched))).
+Proof. exact label_stream_is_sequentially_consistent. Qed.
+Print Assumptions c07_label_stream_is_sequentially_consistent.
